@@ -8,7 +8,7 @@ META = {
                  "exactly singular systems with exact elimination must be reported",
     "text": "For float/double/long double and sizes 1..12 the harness builds well-conditioned, graded-SVD (kappa up to 1e12), "
             "zero/small leading pivot, 0.1-threshold, permutation, triangular, globally and row-scaled and unimodular matrices, three "
-            "right-hand sides each, and runs LUSolve::exe (2- and 4-argument, matrix and tmatrix), LUSolve::back_substitute on the kept "
+            "right-hand sides each (nonsingular matrices with kappa_F >= 500 are filed under the stratum 'illcond' whatever their generator), and runs LUSolve::exe (2- and 4-argument, matrix and tmatrix), LUSolve::back_substitute on the kept "
             "factorisation, LUDecomp<true|false>+back substitution, QRDecomp exe+tq_product+back_substitute, TinyMatrixSolve exe "
             "(vector and matrix right-hand sides, exceptions on/off, closed forms N=1,2,3 named separately), decomp+back_substitute, "
             "TinyMatrixInvert. Success requires ||Ax-b|| <= (1600+40n)·eps·kappa_F·||A||_F·||x|| (cases with kappa·eps>1e-2 skipped and "
@@ -21,7 +21,8 @@ META = {
             "column / zero matrix are exactly detectable and judged.",
 }
 
-NONSING = ["wellcond", "graded", "pivot-zero", "pivot-threshold", "permutation", "triangular", "scaled", "rowscaled", "unimodular"]
+NONSING = ["wellcond", "graded", "pivot-zero", "pivot-threshold", "permutation", "triangular", "scaled", "rowscaled", "unimodular",
+           "illcond"]  # illcond = any generator, kappa_F >= 500 (mostly graded and rowscaled)
 SING = ["sing-zero-row", "sing-zero-col", "sing-zero-matrix", "sing-dup-row", "sing-rank1-pow2", "sing-incidence"]
 DYN_APIS = ["LUSolve::exe(matrix,vector)", "LUSolve::exe(matrix,vector,x,p)", "LUSolve::exe(tmatrix,tvector)",
             "LUDecomp<true>+back_substitute", "LUDecomp<false>+back_substitute", "QRDecomp::exe+tq_product+back_substitute"]
@@ -50,7 +51,7 @@ def run(ctx):
     req = []
     for api in DYN_APIS:
         for st in NONSING:
-            req.append((api, st, 30))
+            req.append((api, st, 10 if st in ("graded", "rowscaled") else 30))  # most of those two go to 'illcond'
         for st in SING:
             if api.startswith("QR") and st not in ("sing-zero-col", "sing-zero-matrix"):
                 continue
@@ -59,7 +60,9 @@ def run(ctx):
     req = []
     for api in TINY_APIS:
         for st in NONSING + SING:
-            req.append((api, st, 10 if "<1," in api or "<2," in api or "<3," in api else 30))
+            if st == "illcond" and "<1," in api:
+                continue  # a 1x1 matrix has kappa = 1
+            req.append((api, st, 10 if ("<1," in api or "<2," in api or "<3," in api or st in ("graded", "rowscaled")) else 30))
     # the three TinyMatrixSolve binaries (one scalar type each) emit the same (API, stratum) keys: fold them into ONE summary
     n = ctx.n(45000, 675000)
     shards = max(1, min(vfcore.NCPU // 3, n // 2000))
